@@ -126,7 +126,15 @@ def run_spec(case, seed):
     _, kind, n, algname = case
     lam = (1.5 + 1.25 * np.arange(n)) * np.where(np.arange(n) % 2 == 0, -1.0, 1.0)  # -1.5, 2.75, -4, ...
     lam = P.rng(seed, "c07spec", n).permutation(lam) * 7.0
-    if kind == "herm-c":
+    if kind == "psd-diagonal-generic":
+        # a diagonal matrix known only through its matmat and declared PSD: every probe of the exact trace is an exact eigenvector, so each
+        # column of the batched Krylov run exhausts its space after one step
+        lam = np.abs(lam)
+        M = np.diag(lam)
+        if n >= 3:  # ... next to a dense block, whose probes go on: the exhausted columns must stay harmless while the others continue
+            M = M.copy()
+            M[1:, 1:], _ = K.hermitian(seed, n - 1, lam[1:], False, "c07m")
+    elif kind == "herm-c":
         M, _ = K.hermitian(seed, n, lam, True, "c07h")
     elif kind == "sym-r":
         M, _ = K.hermitian(seed, n, lam, False, "c07s")
@@ -135,6 +143,8 @@ def run_spec(case, seed):
     else:
         M, _ = K.diagonalizable(seed, n, lam, False, 3.0, "c07gr")
     A = ops.Dense(M)
+    if kind == "psd-diagonal-generic":
+        A = cola.PSD(ops.LinearOperator(np.float64, (n, n), matmat=lambda X, Mm=M.copy(): Mm @ X))
     sgn_ref, lad_ref = (-1.0) ** int(np.sum(lam < 0)), float(np.sum(np.log(np.abs(lam))))
     vio = []
     with warnings.catch_warnings():
@@ -144,10 +154,10 @@ def run_spec(case, seed):
             s_c, ld_c = complex(np.asarray(s).reshape(-1)[0]), complex(np.asarray(ld).reshape(-1)[0])
             tol = 1e-6 if algname in ("Lanczos", "Arnoldi") else 1e-9
             if not (np.isfinite(s_c) and np.isfinite(ld_c)) or abs(s_c - sgn_ref) > 10 * tol or abs(ld_c - lad_ref) > tol * max(1.0, abs(lad_ref)):
-                vio.append({"key": f"C07|real-spectrum-of-both-signs|value|{algname}|{kind}", "what": f"slogdet wrong for {kind} with real eigenvalues of both signs (n={n})",
+                vio.append({"key": f"C07|prescribed-spectrum|value|{algname}|{kind}", "what": f"slogdet wrong for the prescribed-spectrum operator {kind} (n={n})",
                             "detail": {"sign": s_c, "logabs": ld_c, "want_sign": sgn_ref, "want_logabs": lad_ref, "eigenvalues": lam.tolist()}})
         except Exception as e:
-            vio.append({"key": f"C07|real-spectrum-of-both-signs|exc:{type(e).__name__}|{algname}|{kind}", "what": f"slogdet raised ({kind}, n={n})", "detail": {"msg": str(e)[:300]}})
+            vio.append({"key": f"C07|prescribed-spectrum|exc:{type(e).__name__}|{algname}|{kind}", "what": f"slogdet raised ({kind}, n={n})", "detail": {"msg": str(e)[:300]}})
     return {"transitions": 2, "outcome": f"spec:{kind}:{n}:{algname}", "violations": vio}
 
 
@@ -255,6 +265,9 @@ def cases(tier, seed):
         for n in (2, 3, 4, 5):
             for a in ("omitted", "LU", "Arnoldi"):
                 out.append(["SPEC", kind, n, a])
+    for n in (2, 3, 5):
+        for a in ("Lanczos", "Arnoldi", "omitted"):
+            out.append(["SPEC", "psd-diagonal-generic", n, a])
     info["states"] = len(out)
     _DESC.update(info)
     return out
